@@ -171,6 +171,12 @@ pub fn generate(tape: &[u8], o: &IcOpts) -> IcProgram {
                 excluded += 1;
                 m = format!("T.{gk} = 'u{step}';");
             }
+            if target == "globalThis" && m.contains("defineProperty") && matches!(gk, "gv" | "gw") {
+                // `var` bindings are non-configurable properties of the global object, so redefining them
+                // throws a TypeError; the global of a node vm context (the reference) does not reproduce
+                // that, so the redefinition goes to the assignment-created (configurable) global instead
+                m = m.replace(&format!("'{gk}'"), "'gx'").replace(&format!("T.{gk}"), "T.gx");
+            }
             if target == format!("O[{oi}]") && pool_builtin[oi] && (m.contains("freeze") || m.contains("seal") || m.contains("preventExtensions") || m.contains("setPrototypeOf")) {
                 m = format!("T.{gk} = 'b{step}';");
             }
